@@ -177,17 +177,22 @@ In(pcs, i, j) == InFace(i, j) /\ RIn(pcs, i, j)
 
 \* membership matrix: InM[j+1][i+1] = 1 iff cell (i,j) is in the region.  A probe (the centre
 \* of a finer cell) has the answer of the level-G cell that contains it.
-InM(pcs) == [j \in 1..S |-> [i \in 1..S |-> IF RIn(pcs, i - 1, j - 1) THEN 1 ELSE 0]]
+InM(pcs) == Explicit([j \in 1..S |-> Explicit([i \in 1..S |-> IF RIn(pcs, i - 1, j - 1) THEN 1 ELSE 0])])
+\* membership read from the matrix (cells outside the face are outside)
+InT(m, i, j) == InFace(i, j) /\ m[j + 1][i + 1] = 1
 
-\* grid vertex (I,J): 1 = strictly inside, 0 = strictly outside, 2 = on the boundary
-VClass(pcs, I, J) ==
-    LET n == Cardinality({c \in {<<I - 1, J - 1>>, <<I, J - 1>>, <<I - 1, J>>, <<I, J>>} : In(pcs, c[1], c[2])})
+\* grid vertex (I,J): 1 = strictly inside, 0 = strictly outside, 2 = on the boundary.
+\* InOp(i,j) is the membership predicate of the region.
+VClassG(InOp(_, _), I, J) ==
+    LET n == Cardinality({c \in {<<I - 1, J - 1>>, <<I, J - 1>>, <<I - 1, J>>, <<I, J>>} : InOp(c[1], c[2])})
     IN  IF n = 4 THEN 1 ELSE IF n = 0 THEN 0 ELSE 2
-VClassM(pcs) == [J \in 1..(S + 1) |-> [I \in 1..(S + 1) |-> VClass(pcs, I - 1, J - 1)]]
+VClass(pcs, I, J) == VClassG(LAMBDA i, j : In(pcs, i, j), I, J)
+VClassM(pcs) == LET m == InM(pcs)
+                IN  [J \in 1..(S + 1) |-> [I \in 1..(S + 1) |-> VClassG(LAMBDA i, j : InT(m, i, j), I - 1, J - 1)]]
 
 \* Cells of level G + d (d in -1..1), coordinates (ci,cj) at that level.  In quad units the
 \* cell occupies [lo, lo + w] with w = 8, 4, 2.
-CellClass(pcs, d, ci, cj) ==
+CellClassG(InOp(_, _), d, ci, cj) ==
     LET w == IF d = -1 THEN 8 ELSE IF d = 0 THEN 4 ELSE 2
         x0 == ci * w  x1 == x0 + w
         y0 == cj * w  y1 == y0 + w
@@ -197,16 +202,18 @@ CellClass(pcs, d, ci, cj) ==
         nbJ == ((y0 - 1) \div 4)..(y1 \div 4)
         cvI == (x0 \div 4)..((x1 - 1) \div 4)
         cvJ == (y0 \div 4)..((y1 - 1) \div 4)
-        nb == {In(pcs, i, j) : i \in nbI, j \in nbJ}
-        cv == {In(pcs, i, j) : i \in cvI, j \in cvJ}
+        nb == {InOp(i, j) : i \in nbI, j \in nbJ}
+        cv == {InOp(i, j) : i \in cvI, j \in cvJ}
     IN  IF Cardinality(nb) = 1
         THEN (IF cv = {TRUE} THEN 1 ELSE 0)       \* 1: inside, clear of the boundary; 0: disjoint
         ELSE IF cv = {TRUE} THEN 2                \* inside, touching the boundary
         ELSE IF cv = {FALSE} THEN 4               \* outside, touching the boundary
         ELSE 3                                    \* the boundary passes through the cell
+CellClass(pcs, d, ci, cj) == CellClassG(LAMBDA i, j : In(pcs, i, j), d, ci, cj)
 CellClassM(pcs, d) ==
     LET n == IF d = -1 THEN S \div 2 ELSE IF d = 0 THEN S ELSE 2 * S
-    IN  [cj \in 1..n |-> [ci \in 1..n |-> CellClass(pcs, d, ci - 1, cj - 1)]]
+        m == InM(pcs)
+    IN  [cj \in 1..n |-> [ci \in 1..n |-> CellClassG(LAMBDA i, j : InT(m, i, j), d, ci - 1, cj - 1)]]
 
 \* ---- which cells an edge meets ----------------------------------------------------
 AxisParallel(e) == e[1][1] = e[2][1] \/ e[1][2] = e[2][2]
